@@ -191,6 +191,35 @@ def build(route, recipe):
         if not (np.array_equal(held, held0) and np.array_equal(np.asarray(first.direct), held0)):
             raise ArgumentMutated(route)
         return cell, "UnitCell(other vectors).volume(); .set_lengths_and_angles(%r, %r)" % (lengths, angles)
+    if route in ("params_rad_rt", "params_deg_rt", "triclinic_rad_rt"):
+        # the unit keyword as a caller gets it from a configuration file: a string made at run time, equal to the literal
+        unit = "".join(["rad", "ians"]) if "rad" in route else "DEGREES".lower()
+        aa = angles if "rad" in route else deg
+        if route.startswith("triclinic"):
+            return UnitCell.triclinic(a, b, c, *aa, unit=unit), "UnitCell.triclinic(%r, unit=<run-time %r>)" % ([a, b, c] + list(aa), unit)
+        return (UnitCell.from_lengths_and_angles(lengths, aa, unit=unit),
+                "UnitCell.from_lengths_and_angles(%r, %r, unit=<run-time %r>)" % (lengths, aa, unit))
+    if route in ("nudged_vectors", "nudged_params", "twin_vectors", "twin_params"):
+        # a cell that differs from the judged one in the 7th digit (the previous step of a cell optimisation), used, and then
+        # either re-specified in place with the judged parameters (nudged_*) or left alone while a second cell object is
+        # built from the judged parameters (twin_*): the judged cell owes nothing to the earlier one
+        eps = 1.0 + 3.0e-7
+        V = np.array(recipe["L"], dtype=float) * s if recipe.get("L") is not None else None
+        if route.endswith("vectors"):
+            other = UnitCell(V * eps)
+        else:
+            other = UnitCell.from_lengths_and_angles([x * eps for x in lengths], [x * (1.0 + 1.0e-7) for x in angles])
+        other.volume(), other.a_star, other.parameters, other.reciprocal_lattice
+        if route == "nudged_vectors":
+            other.set_vectors(V)
+            return other, "UnitCell(V * (1 + 3e-7)); .set_vectors(%r)" % (V.tolist(),)
+        if route == "nudged_params":
+            other.set_lengths_and_angles(lengths, angles)
+            return other, "UnitCell.from_lengths_and_angles(nearly the same); .set_lengths_and_angles(%r, %r)" % (lengths, angles)
+        if route == "twin_vectors":
+            return UnitCell(V), "UnitCell(V * (1 + 3e-7)) earlier; UnitCell(%r)" % (V.tolist(),)
+        return (UnitCell.from_lengths_and_angles(lengths, angles),
+                "UnitCell.from_lengths_and_angles(nearly the same) earlier; UnitCell.from_lengths_and_angles(%r, %r)" % (lengths, angles))
     if route == "rhombohedral_rad":
         return UnitCell.rhombohedral(a, al), "UnitCell.rhombohedral(%r, %r)" % (a, al)
     if route == "rhombohedral_deg":
@@ -422,6 +451,10 @@ def recipe_for(rng, kind, M, source, family=None, all_routes=False):
     routes = (["vectors", "respec_vectors"] if kind == "L" else []) + ["params_rad", "params_deg", "respec_params",
                                                                       "params_rad_np", "params_deg_np"]
     routes += wrappers if all_routes else [rng.choice(wrappers)]
+    extra = ["params_rad_rt", "params_deg_rt", "triclinic_rad_rt", "nudged_params", "twin_params"] + (["nudged_vectors", "twin_vectors"] if kind == "L" else [])
+    routes += extra if all_routes else rng.sample(extra, 2)
+    # the twin routes come first: nothing in the process has yet described the judged cell when its near twin is built
+    routes.sort(key=lambda r: 0 if r.startswith("twin_") else 1)
     if fam != "triclinic":
         routes += FAMILY_ROUTES[fam] + ["unique_" + fam]
     r = {"kind": kind, "sn": sc[0], "sd": sc[1], "family": fam, "routes": routes,
